@@ -184,7 +184,7 @@ pub fn c11(ctx: &mut Ctx) {
     {
         let sp = super::bytes::long_chain_space();
         let get = &sp.get;
-        ctx.bound("long chains", "chains of {7,8,9,15,16,17,18,31,32,33,34,63,65,130} well-formed tiles of mixed sizes (two size patterns) x 12 tail variants");
+        ctx.bound("long chains", "chains of {7,8,9,15..18,31..34,63,65,130,255,256,257,300,513,1025} well-formed tiles of mixed sizes (two size patterns) x 12 tail variants");
         ctx.run_space(&sp.name, sp.len, |idx, l| {
             let mut buf = Vec::with_capacity(2048);
             get(idx, &mut buf);
